@@ -147,7 +147,7 @@ CHECKS["C08"] = dict(
     technique="TLA+ level-1 specification of a project under version control (Bumpver.tla) model-checked with TLC (exhaustive small depth + simulation) + replay of the generated behaviours on real git step by step",
     text=("Design level: Bumpver.tla - branches, commit chain, tags, working-tree version texts, date, configured tag scope; actions Update (resolve by scope, Incr, gate, dirty check, rewrite, "
           "commit that git refuses when empty, tag), user commit, unrelated commit, new branch, branch switch - with the invariants Agreement, StrictlyGreater, TagsUnique, "
-          "NextUpdatePossible, OneCommitOneTag evaluated in every state; exhaustive to depth 2 (thorough 3) for one project and by simulation to depth 8 (thorough 12) for four projects. "
+          "NextUpdatePossible, OneCommitOneTag evaluated in every state; exhaustive to depth 2 for one project and by simulation to depth 8 (thorough 12) for four projects. "
           "Conformance (spec -> code): the behaviours TLC generates are exported through a history variable and replayed against real git repositories and the real CLI; after every step "
           "exit code, start and announced version, config value, both file occurrences, `show`, tag count, tag at HEAD, parent commit and committed paths are compared with the spec state."),
     note=_NOTE, ref="DESIGN.md section 6, C08")
